@@ -189,7 +189,7 @@ def run_system(ctx, pid=None):
         r = None
         for attempt in range(2):                      # a JVM that dies (memory pressure on a busy machine) is started again
             r = tlc.run_tlc("Driver", wcfg, wd, workers=4, simulate="num=400000", depth=70, seed=ctx.seed + 2 + attempt,
-                            timeout=240, heap="2g")
+                            timeout=900, heap="2g")
             if r.invariant == w:
                 break
         return w, r
